@@ -1,5 +1,67 @@
-(* C12 - statements are being added as Proofs/ExecFacts.v grows *)
-From Coq Require Import List.
-From JugV Require Import Model.Deps Model.Exec Model.ExecCase.
-Theorem C12_placeholder : True. Proof. exact I. Qed.
-Print Assumptions C12_placeholder.
+(* C12 - a worker asked to stop exits without leaving locks or partial results.
+   Statements only; every proof is [exact <lemma>].  Vocabulary: see Props/C02.v and C01.v.
+   [EInterrupt w] = SystemExit / KeyboardInterrupt is raised in worker w: SIGTERM, Ctrl-C, or an exit
+   condition (task-count limit, time limit, stop file: these call exit(0) after a task was stored). *)
+From Coq Require Import List Bool PArith Arith.
+From JugV Require Import Model.MapReduce Model.Slice Model.Deps Model.Exec Model.ExecCase Model.ExecExample
+  Proofs.ExecFacts Proofs.ExecProgFacts Proofs.ExecTheorems.
+Import ListNotations.
+
+(* a stop request can arrive at any moment: while choosing or waiting, holding a lock, inside a task
+   function, between the function and the dump, after the dump; it changes no result and no lock *)
+Theorem C12_stop_can_arrive_anywhere : forall (V : Type) (C : cfg V) (s : st V) w,
+  (w_pc (ws s w) = PIdle \/ exists t, w_pc (ws s w) = PLocked t \/ w_pc (ws s w) = PCleared t \/ w_pc (ws s w) = PSkip t \/
+                                 w_pc (ws s w) = PRunning t \/ (exists v, w_pc (ws s w) = PRan t v) \/ w_pc (ws s w) = PStored t) ->
+  exists s', step C s (EInterrupt w) = Some s' /\ w_intr (ws s' w) = true /\ results s' = results s /\ locks s' = locks s.
+Proof. exact (@interrupt_enabled). Qed.
+Print Assumptions C12_stop_can_arrive_anywhere.
+
+(* from then on the worker never stores a result, starts a function or takes a lock again (so the
+   interrupted task gets no result from it) ... *)
+Theorem C12_stopped_worker_stores_nothing : forall (V : Type) (C : cfg V), framed C ->
+  forall r0 tr s w tr' s', reach C r0 tr s -> w_intr (ws s w) = true -> run C s tr' = Some s' ->
+    w_intr (ws s' w) = true /\
+    (forall t v, ~ In (EDump w t v) tr') /\ (forall t, ~ In (EStart w t) tr') /\ (forall t, ~ In (ELock w t true) tr').
+Proof. exact (@stopped_worker_is_harmless). Qed.
+Print Assumptions C12_stopped_worker_stores_nothing.
+
+(* ... all it can still do to shared state is release the lock it holds *)
+Theorem C12_stopped_worker_only_unlocks : forall (V : Type) (C : cfg V)
+  (s s' : st V) e w, Inv C s -> w_intr (ws s w) = true -> step C s e = Some s' -> actor e = Some w ->
+    results s' = results s /\
+    (locks s' = locks s \/ exists t, e = EUnlock w t /\ w_pc (ws s w) = PUnwind t /\ w_pc (ws s' w) = PExiting).
+Proof. exact (@interrupted_is_harmless). Qed.
+Print Assumptions C12_stopped_worker_only_unlocks.
+
+(* a worker that has left - for whatever reason - holds no lock *)
+Theorem C12_no_lock_left : forall (V : Type) (C : cfg V), framed C ->
+  forall r0 tr s w c t, reach C r0 tr s -> w_pc (ws s w) = PDone c -> locks s t <> LHeld w.
+Proof. exact (@left_workers_hold_no_lock). Qed.
+Print Assumptions C12_no_lock_left.
+
+(* whatever was stored is still the sequential value (C01 (a) holds with stop requests in the trace),
+   and any later workers complete the computation: once nobody holds a lock, new workers F that run
+   without being stopped themselves end with every non-failing task stored *)
+Theorem C12_later_workers_finish : forall (V : Type) (C : cfg V), framed C ->
+  forall rank, ranked C rank -> closed C ->
+  forall r0 tr s (F : wid -> bool) tr' s', reach C r0 tr s ->
+    (forall t w, locks s t <> LHeld w) ->
+    (forall w, F w = true -> ws s w = fresh_w) ->
+    (forall w, F w = false -> live (w_pc (ws s w)) = false) ->
+    forallb (okev C) tr' = true -> run C s tr' = Some s' ->
+    quiescent F s' -> (exists w c, F w = true /\ w_pc (ws s' w) = PDone c) ->
+    forall t, In t (c_tasks C) -> (results s' t <> None <-> ~ doomed C (results s') t).
+Proof. exact (@later_execute_completes). Qed.
+Print Assumptions C12_later_workers_finish.
+
+(* non-vacuity: worker 0 is stopped inside f1 (exit status 143), releases its lock and leaves without a
+   result for t1; worker 1, which had lost the lock, leaves; afterwards no lock is held and worker 2
+   completes everything with the sequential values *)
+Example C12_nonvacuous :
+  (exists s, run (prog_cfg ex_prog) (init (st_of [])) ex_trace_stop = Some s /\
+             map (results s) [1; 2; 3]%positive = [None; None; None] /\ map (locks s) [1; 2; 3]%positive = [LFree; LFree; LFree] /\
+             w_pc (ws s 0) = PDone 143 /\ w_pc (ws s 1) = PDone 0 /\ ws s 2 = fresh_w) /\
+  (exists s, run (prog_cfg ex_prog) (init (st_of [])) (ex_trace_stop ++ ex_trace_finish 2) = Some s /\
+             forallb (okev (prog_cfg ex_prog)) (ex_trace_finish 2) = true /\
+             map (results s) [1; 2; 3]%positive = [Some ex_v1; Some ex_v2; Some ex_v3] /\ w_pc (ws s 2) = PDone 0).
+Proof. split; eexists; vm_compute; repeat split; reflexivity. Qed.
